@@ -462,7 +462,7 @@ func (n *Nodis) Rename(key, dstKey string) error {
 		}
 		dstMeta.setValue(meta.value)
 		n.signalModifiedKey(key, meta)
-		n.signalModifiedKey(key, dstMeta)
+		n.signalModifiedKey(dstKey, dstMeta)
 		n.notify(func() []patch.Op {
 			return []patch.Op{{Type: patch.OpTypeRename, Data: &patch.OpRename{Key: key, DstKey: dstKey}}}
 		})
@@ -489,7 +489,7 @@ func (n *Nodis) RenameNX(key, dstKey string) error {
 		n.store.metadata.Set(dstKey, dstMeta)
 		n.store.mu.Unlock()
 		n.signalModifiedKey(key, meta)
-		n.signalModifiedKey(key, dstMeta)
+		n.signalModifiedKey(dstKey, dstMeta)
 		n.notify(func() []patch.Op {
 			return []patch.Op{{Type: patch.OpTypeRename, Data: &patch.OpRename{Key: key, DstKey: dstKey}}}
 		})
